@@ -54,11 +54,24 @@ def run(chk):
     saves = [a for a in aws if a.call is not None and names.call_is(a.call, "CredentialStore::save_credential")]
     if chk.require("R1 save is the last fallible step", "R1|make_credential|save", len(saves) == 1, where(mc), "expected exactly one awaited save_credential, found %d" % len(saves)):
         sv = saves[0]
-        tr = try_of_await(mc, sv, du)
-        if chk.require("R1 save is the last fallible step", "R1|make_credential|save-try", tr, where(mc, sv.call_bb), "save_credential's result is not propagated with `?`"):
-            after = mc.reachable(tr["continue_bb"], follow_yield_drop=False)
+        Tm = flow.Terms(p, mc)
+        ok_edges, other_edges = flow.success_edges(p, mc, flow.await_pred(sv), Tm)
+        if chk.require("R1 save is the last fallible step", "R1|make_credential|save-try", bool(ok_edges), where(mc, sv.call_bb), "save_credential's result is never tested for success"):
+            after = set()
+            for sb, sc in ok_edges:
+                after |= mc.reachable(sc, follow_yield_drop=False)
             errs = [s for s in flow.outcome_sites(mc) if s["bb"] in after and s["path"] == () and s["kind"] in ("Err", "residual")]
-            tries = [t for t in flow.try_sites(mc) if t["branch_bb"] in after]
+            # any further test of a fallible value after the save succeeded (a `?`, a match on a Result/Option with an exit)
+            tests = []
+            for sb in sorted(after):
+                t = mc.term(sb)
+                if t and t["k"] == "switch" and not mc.blocks[sb]["cleanup"]:
+                    term = flow.simplify_term(Tm.operand(t["op"], sb, "t"))
+                    r = flow.presence_test(term, ("in", "1"))
+                    if r is not None and not (isinstance(term, tuple) and term[0] == "discr" and len(term) > 2 and term[2] == "Poll") and (sb, ) and not any(sb == e[0] for e in ok_edges):
+                        # a presence test is harmless when both sides continue to Ok only; count those that can leave with Err
+                        if errs:
+                            tests.append(sb)
             ylds = [y for y in mc.yields() if y in after]
             pan = []
             for bb in after:
@@ -69,13 +82,13 @@ def run(chk):
                     pan.append((bb, core.callee_of(t)))
             oks = [s for s in flow.outcome_sites(mc) if s["bb"] in after and s["kind"] == "Ok"]
             site = where(mc, sv.call_bb)
-            chk.ob("R1 save is the last fallible step", "R1|make_credential|no-error-after-save", not errs and not tries, where(mc, (errs or [{"bb": tr["continue_bb"]}])[0]["bb"]) if errs else site,
-                   "Err returns after save: %d, `?` after save: %d" % (len(errs), len(tries)))
+            chk.ob("R1 save is the last fallible step", "R1|make_credential|no-error-after-save", not errs, where(mc, errs[0]["bb"]) if errs else site,
+                   "Err returns reachable after the save succeeded: %d" % len(errs))
             chk.ob("R1 save is the last fallible step", "R1|make_credential|no-suspension-after-save", not ylds, where(mc, ylds[0]) if ylds else site,
                    "suspension points reachable after the save completed: %s" % ylds)
             chk.ob("R1 save is the last fallible step", "R1|make_credential|no-panic-after-save", not pan, where(mc, pan[0][0]) if pan else site,
                    "panic sites after the save: %s" % [short(str(x[1])) for x in pan])
-            chk.ob("R1 save is the last fallible step", "R1|make_credential|ok-after-save", len(oks) >= 1 and flow.cut_by_edges(mc, 0, [o["bb"] for o in flow.outcome_sites(mc) if o["kind"] == "Ok"], [(tr["switch_bb"], tr["continue_bb"])]),
+            chk.ob("R1 save is the last fallible step", "R1|make_credential|ok-after-save", len(oks) >= 1 and flow.cut_by_edges(mc, 0, [o["bb"] for o in flow.outcome_sites(mc) if o["kind"] == "Ok"], ok_edges),
                    site, "every Ok return passes the success edge of the save")
 
     # ---------------- R2
@@ -88,42 +101,9 @@ def run(chk):
             if a.call is None or not names.call_is(a.call, *pats):
                 continue
             which = core.callee_of(a.call).rsplit("::", 1)[-1]
-            ok = False
-            wit = ""
-            tr = try_of_await(co, a, du)
-            if tr is not None:
-                ok = True
-                wit = "result propagated with `?` at %s" % where(co, tr["branch_bb"])
-            else:
-                # follow the value: combinators that keep the error (and_then/map/map_err) then `?`, or an explicit match
-                if a.payload is not None:
-                    from .common import forward_taint
-                    tainted = forward_taint(co, {a.payload}) | {a.payload}
-                    for t in flow.try_sites(co):
-                        if t["operand"] and t["operand"][0] in tainted:
-                            # make sure no error-dropping adaptor lies between
-                            term = flow.simplify_term(T.operand({"k": "copy", "place": {"l": t["operand"][0], "p": [], "s": ""}}, t["branch_bb"], "t"))
-                            drop = flow.term_contains(term, lambda x: isinstance(x, tuple) and len(x) == 4 and x[0] == "call" and any(names.is_(x[1], n) for n in ("Result::ok", "Result::unwrap_or", "Result::unwrap_or_default", "Result::unwrap_or_else", "Result::is_ok", "Result::is_err")))
-                            if not drop:
-                                ok = True
-                                wit = "result flows through %s into `?` at %s" % (flow.term_str(term)[:100], where(co, t["branch_bb"]))
-                    if not ok:
-                        # explicit match: switch on discriminant of the payload, Err arm -> Err outcome
-                        for sb in range(len(co.blocks)):
-                            t = co.term(sb)
-                            if t and t["k"] == "switch":
-                                pl = flow.op_place(t["op"])
-                                d = du.single_def(pl[0]) if pl and pl[1] == () else None
-                                if d and d[0] == "assign" and d[4]["k"] == "discr" and flow.norm_place(d[4]["place"])[0] in tainted:
-                                    e = flow.switch_edges(co, sb)
-                                    err_t = e.get("1", e.get("otherwise"))
-                                    outs = [s for s in flow.outcome_sites(co) if s["kind"] == "Err" and s["bb"] in co.reachable(err_t, follow_yield_drop=False)]
-                                    okouts = [s for s in flow.outcome_sites(co) if s["kind"] == "Ok" and s["bb"] in co.reachable(err_t, follow_yield_drop=False)]
-                                    if outs and not okouts:
-                                        ok = True
-                                        wit = "explicit match: the Err arm returns Err"
-                if not ok:
-                    wit = "the awaited result of %s reaches neither `?` nor an Err-returning match (dropped or turned into success)" % which
+            ok, wit, _oke, _bade = flow.failure_is_error(p, co, flow.await_pred(a), T)
+            if not ok:
+                wit = "the awaited result of %s: %s" % (which, wit)
             chk.ob("R2 error discipline", "R2|%s|%s" % (nm, which), ok, where(co, a.call_bb), wit)
 
     # ---------------- R3
